@@ -1990,7 +1990,11 @@ matrix_rem_generic(PyObject *self, PyObject *other, int inplace)
     if (!ptr) return PyErr_NoMemory();
 
     int lgt = MAT_LGT(self);
-    if (mtx_rem[id](ptr,n,lgt)) { free(ptr); return NULL; }
+    if (mtx_rem[id](ptr,n,lgt)) {
+      /* ptr is the buffer of self unless a conversion took place */
+      if (ptr != MAT_BUF(self)) free(ptr);
+      return NULL;
+    }
 
     free_convert_mtx_alloc(self, ptr, id);
     Py_INCREF(self);
